@@ -335,6 +335,14 @@ def run(ctx: Ctx) -> None:
     rule_installed(ctx)
     rule_cells(ctx)
     rule_pairing(ctx)
+    # which ledger maps each update rule may read (shared with C06.4): ValidHold compares holds with balances only - borrowed funds are
+    # already part of the balance, counting them again accepts holds and fills the account cannot cover
+    from . import c06
+    ctx.rule_map = {"C06.4": "C02.3"}
+    try:
+        c06.rule_frame(ctx)
+    finally:
+        ctx.rule_map = {}
     rule_loan_amount(ctx)
     rule_refuse_fill(ctx)
     ctx.assume("initial balances are non-negative (negative initial balances create borrowed amounts without loans: outside the quantifier)")
